@@ -2021,7 +2021,14 @@ def type_casting_stream(ck) -> None:
                 big = np.zeros(2 * n + 1, dtype=np.uint8)
                 big[1::2][:n] = vals
                 a = big[1::2][:n]
-            out = (tc.pack_4bitx2 if k == 0 else tc.pack_2bitx4)(a)
+            keep = a.copy()
+            try:
+                out = (tc.pack_4bitx2 if k == 0 else tc.pack_2bitx4)(a)
+            except Exception as e:  # noqa: BLE001   (the stream must not stop the check: the tensor-level cases follow)
+                ck.broken("correspondence:type_casting", f"pack_{per} raised {type(e).__name__}: {e} for a {form} input of {n} bytes")
+                continue
+            if not np.array_equal(a, keep):
+                ck.broken("correspondence:type_casting", f"pack_{per} modified its {form} input {vals} in place")
             rows.append((k, vals, 0, [int(x) for x in out.reshape(-1)]))
             meta.append({"fn": "pack", "per": per, "n": n, "form": form})
             ck.hist("type_casting", f"pack_{per}:{form}")
@@ -2128,9 +2135,17 @@ def run(ck) -> None:
         rc, out = common.sh(["timeout", "300", "coqc", "-Q", "theories", "IRV", "-w", "-all", "theories/C04/Tie.v"], cwd=common.COQ, timeout=330)
         if rc != 0:
             ck.broken("build:C04/Tie.v", out[-2000:])
-    env_contract_subbyte(ck)
-    tables_runtime_check(ck)
-    type_casting_stream(ck)
+    def guarded(name, fn, *a):
+        """a side stream that fails unexpectedly is a broken obligation, but the tensor-level cases must still run
+        (they are what produces the concrete input)"""
+        try:
+            fn(ck, *a)
+        except Exception as e:  # noqa: BLE001
+            import traceback
+            ck.broken(f"stream-error:{name}", traceback.format_exc()[-1500:])
+    guarded("ml_dtypes-contract", env_contract_subbyte)
+    guarded("tables", tables_runtime_check)
+    guarded("type_casting", type_casting_stream)
     wd = os.path.join(ck.scratch, "w")
     os.makedirs(wd, exist_ok=True)
 
@@ -2147,13 +2162,19 @@ def run(ck) -> None:
     corpus_nbytes = [c["nbytes"] for c in specs if "nbytes" in c]
     specs = [c for c in specs if "dtype" in c]
     ck.coverage["corpus_cases"] = len(specs) + len(corpus_strings) + len(corpus_nbytes)
-    nbytes_stream(ck, corpus_nbytes)
+    guarded("nbytes", nbytes_stream, corpus_nbytes)
     specs += gen_wellformed(ck) + gen_pyvalues(ck) + gen_malformed(ck)
     cases, failures = [], []
     for i, spec in enumerate(specs):
         spec.setdefault("params", {})
         spec.setdefault("dests", [])
-        obs, bad = check_spec(spec, wd)
+        try:
+            obs, bad = check_spec(spec, wd)
+        except Exception as e:  # noqa: BLE001   one unobservable case must not stop the run
+            import traceback
+            ck.broken("harness-error:case", json.dumps({k: spec[k] for k in ("dtype", "shape", "rep", "params")}, default=repr)[:400]
+                      + " " + traceback.format_exc()[-800:])
+            continue
         ck.count()
         if spec.get("may_reject"):
             ck.hist("non_native_byte_order", "rejected:" + obs["construct_error"] if "construct_error" in obs else "accepted")
